@@ -121,6 +121,25 @@ def rule_equiv(lines, rng):
         if name == "U3" and len(ts) == 1:
             th, ph, la = [x.strip() for x in args.strip("()").split(",")]
             cands.append((i, [f"R_Z({la}) {ts[0]}", f"R_Y({th}) {ts[0]}", f"R_Z({ph}) {ts[0]}"]))
+        # the same gate written with integer angle literals (Paulis as rotations by pi up to a global phase; `1.0` written `1`)
+        if name in ("X", "Y", "Z") and len(ts) == 1:
+            cands.append((i, [f"R_{name}({['1', '-1', '3', '1.0'][int(rng.integers(0, 4))]}) {ts[0]}"]))
+        if name == "H" and len(ts) == 1:
+            cands.append((i, [f"U3(0.5, 0, 1) {ts[0]}"]))
+        if name == "S_DAG" and len(ts) == 1:
+            cands.append((i, [f"R_Z(-0.5) {ts[0]}"]))
+        if name in ("R_X", "R_Y", "R_Z", "U3") and ts:
+            lits = [x.strip() for x in args.strip("()").split(",")]
+            new_lits = []
+            for x in lits:
+                try:
+                    v = float(x)
+                except ValueError:
+                    new_lits = None
+                    break
+                new_lits.append(str(int(v)) if v == int(v) and abs(v) < 100 else x)
+            if new_lits is not None and new_lits != lits:
+                cands.append((i, [f"{name}({', '.join(new_lits)}) {' '.join(ts)}"]))
     if not cands:
         return None
     i, rep = cands[int(rng.integers(0, len(cands)))]
@@ -205,6 +224,24 @@ def run(ctx: Ctx) -> int:
                 ctx.violation("rewrite-split-observable-include:" + text2.replace("\n", ";")[:60],
                               f"splitting an OBSERVABLE_INCLUDE into two instructions changed the exact detector-sampler distribution by {dd:.3g}",
                               {"original": text, "rewritten": text2, "det": True, "rule": "split-observable-include"})
+    # the same rotation written with integer and with decimal angle literals, and Paulis as rotations by pi
+    for text, text2 in [("X 0\nM 0", "R_X(1) 0\nM 0"), ("H 0\nT 0\nZ 0\nT 0\nH 0\nM 0", "H 0\nT 0\nR_Z(1) 0\nT 0\nH 0\nM 0"),
+                        ("H 0\nCX 0 1\nY 1\nT 0\nH 0\nM 0 1", "H 0\nCX 0 1\nR_Y(-1) 1\nT 0\nH 0\nM 0 1"),
+                        ("U3(0.4, -1.0, 0.3) 0\nH 0\nM 0", "U3(0.4, -1, 0.3) 0\nH 0\nM 0"), ("H 0\nR_Z(1.0) 0\nH 0\nM 0", "H 0\nR_Z(1) 0\nH 0\nM 0"),
+                        ("R_X(0.3) 0\nR_X(2.0) 0\nM 0", "R_X(0.3) 0\nR_X(2) 0\nM 0"), ("H 0\nM 0", "U3(0.5, 0, 1) 0\nM 0"),
+                        ("R_Y(3.0) 0 1\nCX 0 1\nM 0 1", "R_Y(3) 0 1\nCX 0 1\nM 0 1"), ("R_X(0.0) 0\nX 1\nM 0 1", "R_X(0) 0\nX 1\nM 0 1")]:
+        try:
+            d1, _ = tsim_dist(tsim.Circuit(text))
+            d2, _ = tsim_dist(tsim.Circuit(text2))
+        except Exception as e:
+            ctx.violation("rewrite-raises-integer-literal:" + text2.replace("\n", ";")[:50], f"tsim raised {e!r} on a rewritten circuit", {"original": text, "rewritten": text2, "det": False})
+            continue
+        dd = dist_diff(d1, d2)
+        ctx.count(("int-literal", text, text2), nontrivial=True, bucket="integer-angle-literal")
+        if dd > tolerance(True):
+            ctx.violation("rewrite-integer-literal:" + text2.replace("\n", ";")[:60],
+                          f"writing an angle as an integer literal (or a Pauli as a rotation by pi) changed the exact output distribution by {dd:.3g}",
+                          {"original": text, "rewritten": text2, "det": False, "rule": "integer-angle-literal"})
     done = 0
     for k in range(n * 3):
         if done >= n or time.time() > deadline:
